@@ -495,7 +495,7 @@ PROPS = {
         },
         n_quick=200, n_thorough=2000,
         gates=["feature.closure", "feature.reentry", "feature.foreach", "feature.call", "feature.real",
-               "outcome.ETimeout", "outcome.Panic", "outcome.ETaskFailure", "outcome.ECallStackOverflow",
+               "outcome.ETimeout", "outcome.ETaskFailure", "outcome.ECallStackOverflow",
                "mode.history", "budget.zero", "need.found"],
         rule="development aid (not a registered property): the crate's own compile output of a hand-written corpus and "
              "of randomly generated card programs (arithmetic, locals/globals, if/while/repeat/for-each, tables, calls, "
